@@ -171,6 +171,27 @@ def INSTANTIATE(cls):
     return cls(Doc(True))
 """, [[None, "s1", [["after_go"]]], [None, "s2", [["after_go"]]]])
 
+# a machine class with value equality: all its instances compare equal and hash alike.  Another
+# instance of the class, equal to the one under test, sits in another state; whatever the library
+# keeps per machine must be kept per *object*
+d("value-equal-machines", _machine("""    def __eq__(self, other):
+        return type(other) is type(self)
+    def __hash__(self):
+        return 7
+    def on_go(self):
+        REC.append(('on_go', [s.id for s in self.states if getattr(self, s.id).is_active],
+                    self.current_state.is_active))
+        return 'veq'""", extra="""
+KEEP = []
+def INSTANTIATE(cls):
+    first = cls()
+    first.send('go')
+    first.send('go')                 # an equal instance, elsewhere (s2), and still alive
+    KEEP.append(first)
+    assert [s.id for s in first.states if getattr(first, s.id).is_active] == ['s2']
+    return cls()
+"""), [["veq", "s1", [["on_go", ["s0"], True]]], ["veq", "s2", [["on_go", ["s1"], True]]]])
+
 # one helper function (same source position, hence an equal code object and qualified name) used
 # directly by one definition and through a functools.wraps wrapper of different "asyncness" by
 # another one
